@@ -142,7 +142,9 @@ type SimPeer struct {
 	clientTipAtHandshake int32
 	handshakeAt          time.Time
 	// cfAsked: heights for which the client asked this node for filter
-	// headers.
+	// headers and the answer reached the client's connection (an answer
+	// lost with a connection the client itself had closed meanwhile does
+	// not make this node one of the responders).
 	cfAsked map[int32]bool
 
 	fhCache map[chainhash.Hash]chainhash.Hash // block hash -> this node's filter header
@@ -614,8 +616,8 @@ func (p *SimPeer) onGetCFHeaders(m *wire.MsgGetCFHeaders) {
 		p.cfAsked = map[int32]bool{}
 	}
 	lied := false
-	for h := int32(m.StartHeight); h <= stop.Height; h++ {
-		p.cfAsked[h] = true
+	from, to := int32(m.StartHeight), stop.Height
+	for h := from; h <= to; h++ {
 		if p.lieAt(chain[h]) != lieNone {
 			lied = true
 		}
@@ -628,6 +630,10 @@ func (p *SimPeer) onGetCFHeaders(m *wire.MsgGetCFHeaders) {
 		out.AddCFHash(&hh)
 	}
 	p.sendWith(out, false, func() {
+		// (delivered: the answer reached the client's connection)
+		for h := from; h <= to; h++ {
+			p.cfAsked[h] = true
+		}
 		if lied {
 			p.liedWhenAsked = true
 			p.liedStops = append(p.liedStops, stop)
